@@ -137,6 +137,17 @@ prop('C17', 'other',
      'propagation inside numpy/C outside; multi-case runs without pool lose exit codes (listed known finding).',
      'bounded symbolic execution of the real control flow over nondeterministic stubs', 'DESIGN.md 3/C17')
 
+prop('C20', 'other',
+     'CrossHair (z3-backed symbolic execution) on the real System._update_config_object: accepted <=> exactly one "=" and one "." '
+     'left of it, stored parts are the stripped pieces, for all strings within the bound; pysym on the real option/file/default/'
+     'dictionary plumbing with symbolic presence of each channel (real ConfigParser merge, real Config.__init__/load/add): option > '
+     'file > default, options sharing a section or naming a section absent from the file; pysym on the real Config.check for every '
+     'numeric alternatives tuple of System, routines and all models; z3 regular-language inclusion/disjointness for int/float '
+     'rendering vs parsing in Config._set (type round trip), validated on the real _set.',
+     "option strings <= 4 chars over 'aB.= 1' (no '%': configparser interpolation is outside); rc file reading/writing (file I/O) "
+     'outside; float(repr(x)) == x trusted.',
+     'CrossHair + path-forking symbolic execution + z3 string theory', 'DESIGN.md 3/C20')
+
 ORDER = ['C%02d' % i for i in range(1, 21)]
 checks, na = [], []
 for pid in ORDER:
